@@ -37,6 +37,8 @@ var mutants = []mutant{
 	{"C02-m7", "C02", "x/oracle/types/params.go", "	if p.OracleRewardPercentage > 100 {\n		return fmt.Errorf(\"oracle reward percentage must not exceed 100: %d\", p.OracleRewardPercentage)\n	}\n", "", "C02.R6:param-safety|percentage|x/oracle/types.Params.OracleRewardPercentage", "finding F3 returns: an accepted parameter value halts begin-block"},
 	{"C02-m8", "C02", "x/feeds/types/params.go", "	if err := validateInt64(\"current feeds update interval\", true, p.CurrentFeedsUpdateInterval); err != nil {", "	if err := validateInt64(\"current feeds update interval\", false, p.CurrentFeedsUpdateInterval); err != nil {", "C02.R6:param-safety|divisor|x/feeds/types.Params.CurrentFeedsUpdateInterval", "a zero interval is accepted: integer divide by zero in feeds end-block"},
 
+	{"C02-m9", "C02", "x/tss/keeper/keeper_group_endblock.go", "		group.PubKey = k.GetAccumulatedCommit(ctx, groupID, 0)", "		group.PubKey = k.GetAccumulatedCommit(ctx, groupID, 0)\n		if err := k.UpdateMemberPubKey(ctx, groupID, 1); err != nil {\n			ctx.Logger().Error(err.Error())\n		}", "C02.R7:swallowed", "a new swallowed error in end-block (partial state on failure)"},
+
 	// ---------------- C03
 	{"C03-m1", "C03", "pkg/tss/internal/lagrange/lagrange.go", "	12: {{2, 2}, {3, 1}},", "	12: {{2, 2}, {3, 2}},", "C03.R1:lagrange|factor|12", "wrong factorisation of 12"},
 	{"C03-m2", "C03", "pkg/tss/internal/lagrange/lagrange.go", "	3:  {1, 3, 9, 27, 81, 243, 729, 2187, 6561},", "	3:  {1, 3, 9, 27, 81, 243, 729, 2187},", "C03.R1:lagrange|powers|3", "row too short: index out of range for some committees"},
